@@ -26,9 +26,9 @@ from mc import space, util
 ID = "C02"
 LEVEL = "exploration"
 RULE = (
-  "enumerate all DFS-ordered trees with <=N bodies x all joint-kind assignments x decoration subsets (all singles and "
-  "pairs up to Np bodies, singles + all-on up to N bodies), plus chains over every block-layout boundary size, mixed-layout "
-  "models and a flex; each scenario = one model, two states in a 2-world batch, through mjw.forward and through the stage "
+  "enumerate all DFS-ordered trees with <=N bodies x all joint-kind assignments x decoration subsets (none, every single, every "
+  "pair, all-on; see BOUNDS for which subsets at which N), plus chains over every block-layout boundary size, mixed-layout "
+  "models and four flex models; each scenario = one model, two states in a 2-world batch, through mjw.forward and through the stage "
   "functions; non-trivial = nv>0, every requested decoration produces a non-zero reference output (its force component / "
   "its change of M) and qacc_smooth is non-zero; distinct = canonical hash of the spec"
 )
